@@ -448,41 +448,3 @@ Proof.
   - unfold status_of. replace (length (agents dead) <=? S (S a)) with true; [discriminate|]. symmetry. apply Nat.leb_le. vm_compute. lia.
 Qed.
 
-(* the same starvation under a FAIR schedule of rounds: every round gives both agents a turn *)
-Definition witness_rounds : list (list (nat * list Z)) :=
-  [[(0, [1]); (1, [0])]; [(1, [1]); (1, []); (0, [1])]; [(0, []); (0, [0]); (1, [0])]; [(1, []); (0, [])]; [(0, []); (1, [])]]%Z.
-
-Lemma run_sched_reach : forall sch s, reach step s (run_sched s sch).
-Proof.
-  induction sch as [|[a ch] r IH]; intros s; [rewrite run_sched_nil; apply reach_refl|].
-  cbn [run_sched]. destruct (finished s); [apply reach_refl|].
-  destruct (step s a ch) as [[[s1 c1] st]|] eqn:E; [|apply IH].
-  eapply reach_trans; [eapply reach_step; [apply reach_refl | exact E] | apply IH].
-Qed.
-
-Lemma witness_rounds_dead : run_sched (init witness 1) (concat witness_rounds) = dead.
-Proof. vm_compute. reflexivity. Qed.
-
-Lemma witness_rounds_fair rd : In rd witness_rounds -> fair_round 2 rd.
-Proof.
-  intros H a Ha. assert (a = 0 \/ a = 1) as [->| ->] by lia;
-    repeat (destruct H as [<-|H]; [eexists; cbn; eauto 6|]); contradiction.
-Qed.
-
-Definition full_statement : Prop :=
-  forall p n rounds, acyclic p -> (forall rd, In rd rounds -> fair_round (S n) rd) -> mu (init p n) <= length rounds ->
-  finished (run_sched (init p n) (concat rounds)) = true.
-
-Theorem full_statement_false : ~ full_statement.
-Proof.
-  intros H.
-  set (extra := repeat [(0, @nil Z); (1, @nil Z)] (mu (init witness 1))).
-  specialize (H witness 1 (witness_rounds ++ extra) witness_acyclic).
-  assert (Hf : forall rd, In rd (witness_rounds ++ extra) -> fair_round 2 rd).
-  { intros rd Hrd. apply in_app_or in Hrd. destruct Hrd as [Hrd|Hrd]; [apply witness_rounds_fair; exact Hrd|].
-    apply repeat_spec in Hrd. subst. intros a Ha. assert (a = 0 \/ a = 1) as [->| ->] by lia; eexists; cbn; eauto. }
-  specialize (H Hf). rewrite app_length in H. unfold extra in H at 2. rewrite repeat_length in H. specialize (H ltac:(lia)).
-  rewrite concat_app, run_sched_app, witness_rounds_dead in H.
-  rewrite (dead_forever _ (run_sched_reach (concat extra) dead)) in H.
-  destruct dead_shape as (F & _). rewrite F in H. discriminate.
-Qed.
